@@ -65,6 +65,7 @@ package gohlslib
 
 //@ func findSegmentWithInvPosition
 //@   props C11 C13
+//@   requires invPos >= 1
 //@   ensures (len(segments) - invPos < 0) ==> (result0 == nil && result1 == 0)
 //@   ensures (invPos >= 1 && len(segments) - invPos >= 0) ==> (result1 == len(segments) - invPos && result0 == segments[len(segments) - invPos])
 //@ end
@@ -83,6 +84,7 @@ package gohlslib
 //@ func clientSegmentQueue.push
 //@   props C20
 //@   requires unheld(&q.mutex)
+//@   modifies q.queue, q.didPush
 //@   ensures len(q.queue) == atlock(len(q.queue)) + 1
 //@   ensures q.queue[len(q.queue)-1] == seg
 //@   ensures forall(i, (0 <= i && i < atlock(len(q.queue))) ==> q.queue[i] == atlock(q.queue[i]))
@@ -94,6 +96,7 @@ package gohlslib
 //@ func clientSegmentQueue.pull
 //@   props C20
 //@   requires unheld(&q.mutex) && ctx != nil
+//@   modifies q.queue, q.didPull
 //@   ensures result1 ==> (atlock(len(q.queue)) >= 1 && result0 == atlock(q.queue[0]))
 //@   ensures result1 ==> (len(q.queue) == atlock(len(q.queue)) - 1
 //@        && forall(i, (0 <= i && i < len(q.queue)) ==> q.queue[i] == atlock(q.queue[i+1])))
@@ -171,4 +174,141 @@ package gohlslib
 //@   ensures calls("dyncall") == 1 ==> (!s.closed && s.nextPartID > capturePartID && calls("invoke.WriteHeader") == 0)
 //@   ensures s.closed ==> (calls("dyncall") == 0 && calls("invoke.WriteHeader") == 1 && callarg("invoke.WriteHeader", 0, 1) == 500)
 //@   loop 1 invariant held(s.mutex) && calls("invoke.WriteHeader") == 0 && calls("dyncall") == 0 && streamLinks(s)
+//@ end
+
+
+//@ pred muxerLinks(m *Muxer) := m != nil && m.cond != nil && condlock(m.cond) == &m.mutex
+//@   && forall(i, (0 <= i && i < len(m.streams)) ==> (m.streams[i] != nil && m.streams[i].mutex == &m.mutex && m.streams[i].cond == m.cond))
+
+//@ func muxerStream.close
+//@   props C07 C08
+//@   role writer
+//@   nosafety
+//@   requires held(s.mutex)
+//@   modifies s.closed, muxerPart.endDTS, muxerTrack.fmp4Samples, muxerSegmentFMP4.endDTS, muxerSegmentMPEGTS.endDTS, muxerSegmentMPEGTS.bw
+//@   modifies storage.fileRAM.finalized, storage.fileRAM.finalSize, storage.fileDisk.finalSize, storage.fileDisk.f, storage.partDisk.size, storage.partDisk.buffer
+//@   ensures s.closed
+//@ end
+
+//@ func Muxer.Close
+//@   props C06 C07 C08
+//@   entry
+//@   role writer
+//@   requires nolocks() && muxerLinks(m)
+//@   modifies m.closed, muxerStream.closed, muxerPart.endDTS, muxerTrack.fmp4Samples, muxerSegmentFMP4.endDTS, muxerSegmentMPEGTS.endDTS, muxerSegmentMPEGTS.bw
+//@   modifies storage.fileRAM.finalized, storage.fileRAM.finalSize, storage.fileDisk.finalSize, storage.fileDisk.f, storage.partDisk.size, storage.partDisk.buffer
+//@   ensures m.closed
+//@   ensures forall(i, (0 <= i && i < len(m.streams)) ==> m.streams[i].closed)
+//@   loop 1 invariant -1 <= ri && ri < len(m.streams) && muxerLinks(m) && m.closed && held(&m.mutex)
+//@   loop 1 invariant forall(k, (0 <= k && k <= ri) ==> m.streams[k].closed)
+//@ end
+
+//@ func Muxer.handleMultivariantPlaylist$1
+//@   props C07 C08
+//@   requires nolocks() && muxerLinks(m) && len(m.streams) >= 1 && r != nil && r.URL != nil
+//@   ensures result != nil ==> (!m.closed && m.streams[0].hasContent())
+//@   ensures m.closed ==> result == nil
+//@   loop 1 invariant held(&m.mutex) && muxerLinks(m) && len(m.streams) >= 1
+//@ end
+
+//@ func Muxer.generateMultivariantPlaylist
+//@   props C16
+//@   requires held(&m.mutex) && muxerLinks(m) && len(m.streams) >= 1
+//@   nosafety
+//@   noframe
+//@ end
+
+
+// ---------------------------------------------------------------------------------------
+// writer side of the monitor: every rotation runs inside one critical section and is followed
+// by Broadcast before the writer returns (no pending wake-up at exit)
+
+//@ func muxerStream.rotateParts
+//@   props C06 C08
+//@   role writer
+//@   nosafety
+//@   requires held(s.mutex)
+//@   modifies *
+//@ end
+
+//@ func muxerStream.rotateSegments
+//@   props C06 C08
+//@   role writer
+//@   nosafety
+//@   requires held(s.mutex)
+//@   modifies *
+//@ end
+
+//@ func Muxer.rotatePartsInner
+//@   props C06 C08
+//@   role writer
+//@   nosafety
+//@   requires held(&m.mutex) && muxerLinks(m) && m.leadingStream != nil && m.leadingStream.mutex == &m.mutex
+//@   modifies *
+//@ end
+
+//@ func Muxer.rotateSegmentsInner
+//@   props C06 C08
+//@   role writer
+//@   nosafety
+//@   requires held(&m.mutex) && muxerLinks(m) && m.leadingStream != nil && m.leadingStream.mutex == &m.mutex
+//@   modifies *
+//@ end
+
+//@ func Muxer.rotateParts
+//@   props C06 C07 C08
+//@   role writer
+//@   requires nolocks() && muxerLinks(m) && m.leadingStream != nil && m.leadingStream.mutex == &m.mutex
+//@   modifies *
+//@   ensures result == nil ==> !dirty()
+//@ end
+
+//@ func Muxer.rotateSegments
+//@   props C06 C07 C08
+//@   role writer
+//@   requires nolocks() && muxerLinks(m) && m.leadingStream != nil && m.leadingStream.mutex == &m.mutex
+//@   modifies *
+//@   ensures result == nil ==> !dirty()
+//@ end
+
+//@ func parseMSNPart
+//@   props C06 C13
+//@   ensures (msn == "" && part == "") ==> (result0 == 0 && result1 == 0 && result2 == nil)
+//@   ensures result2 != nil ==> (result0 == 0 && result1 == 0)
+//@ end
+
+
+// ---------------------------------------------------------------------------------------
+// muxerServer: the URL table (C05, C18)
+
+//@ func muxerServer.registerPath
+//@   props C05 C08 C18
+//@   requires unheld(&s.mutex) && s.pathHandlers != nil
+//@   modifies s.pathHandlers
+//@   ensures s.pathHandlers == old(s.pathHandlers)
+//@   ensures has(s.pathHandlers, path) && s.pathHandlers[path] == cb
+//@   ensures forall(k, k != path ==> (has(s.pathHandlers, k) == old(has(s.pathHandlers, k)) && s.pathHandlers[k] == old(s.pathHandlers[k])))
+//@ end
+
+//@ func muxerServer.unregisterPath
+//@   props C05 C08 C18
+//@   requires unheld(&s.mutex)
+//@   modifies s.pathHandlers
+//@   ensures s.pathHandlers == old(s.pathHandlers)
+//@   ensures !has(s.pathHandlers, path)
+//@   ensures forall(k, k != path ==> (has(s.pathHandlers, k) == old(has(s.pathHandlers, k)) && s.pathHandlers[k] == old(s.pathHandlers[k])))
+//@ end
+
+//@ func muxerServer.getPathHandler
+//@   props C05 C06 C08
+//@   requires unheld(&s.mutex)
+//@   ensures has(s.pathHandlers, path) ==> result == s.pathHandlers[path]
+//@   ensures !has(s.pathHandlers, path) ==> result == nil
+//@ end
+
+// unknown paths never reach a handler (no media bytes for unknown / expired URIs)
+//@ func muxerServer.handle
+//@   props C05 C08 C18
+//@   requires unheld(&s.mutex) && r != nil && r.URL != nil
+//@   ensures calls("dyncall") <= 1
 //@ end
